@@ -21,14 +21,14 @@ func init() {
 		id: "C11", level: "exploration",
 		rule:        "seeded search over logical contents x reference-encoder layouts, each encoded twice: plain, and decorated with unknown-opcode records (0x10..0xFF, any length incl. 0) at top level, inside chunks and at summary group boundaries (optionally with their own summary offsets) and with trailing bytes on every extensible record incl. the conformance 'pad' variant 01 ff ff; all pointers are recomputed so both files are spec-valid (validated by refmcap). oracle: lexer content, scan and indexed messages in 3 orders (also topic-restricted), Info and random access on the decorated file all equal the model. non-trivial: >=1 message and >=1 decoration; distinct by layout class x op-shape class",
 		assumptions: []string{"unknown records are placed only where the spec allows a record: not between a chunk and its message indexes, and in the summary only at group boundaries"},
-		batches:     map[string]int{"quick": 48, "thorough": 400},
-		checks:      map[string]int{"quick": 80, "thorough": 200},
+		batches:     map[string]int{"quick": 48, "thorough": 96},
+		checks:      map[string]int{"quick": 80, "thorough": 96},
 	}})
 	runner.Register(&c12{base{
 		id: "C12", level: "exploration",
 		rule:        "seeded search over logical contents, each laid out in several ways by the reference encoder: partition of the message stream into chunks (none, one, each, random; message-less and empty chunks), per-chunk compression none/zstd/lz4, schema/channel placement (as written, early at top level, early only, repeated in every chunk), every permutation of summary groups that keeps channels before statistics, subsets of optional groups, summary offsets and CRCs present or zero. oracle: for every layout lexer content, scan, indexed reads in 3 orders (also topic-restricted), Info and random access equal the model, hence each other. non-trivial: >=2 messages; distinct by layout class x op-shape class",
 		assumptions: []string{"indexed reads are compared only for layouts that keep chunk indexes and repeated schemas/channels and put every message in a chunk"},
-		batches:     map[string]int{"quick": 48, "thorough": 400},
+		batches:     map[string]int{"quick": 48, "thorough": 96},
 		checks:      map[string]int{"quick": 60, "thorough": 150},
 	}})
 }
